@@ -389,7 +389,11 @@ func genC12Malformed(t *rapid.T) *Scenario {
 		a.Op(op)
 	}
 	big64 := new(uint256.Int).Lsh(uint256.NewInt(1), 64)
-	switch uniform(t, 0, 8, "malk") {
+	switch uniform(t, 0, 9, "malk") {
+	case 9:
+		note = "VVJNAL unregistered key, zero size"
+		a.Push(7).Push(0).Push(pickU64(t, "maloff0", 0, 8, 31)).Push(5)
+		emit(VVJNAL, 4)
 	case 0:
 		note = "VVJNAL unregistered key"
 		a.Push(7).Push(32).Push(0).Push(5)
